@@ -900,7 +900,7 @@ func c04UniquePart(t *testing.T, rep *mc.Report) {
 
 func TestVerifC04(t *testing.T) {
 	rep := mc.NewReport("C04")
-	rep.Rule = "value parts: every multiset of <=N contributions from the alphabet x every distinct permutation x every ordered binary merge tree (MultiValue.Merge: receiver = left subtree) x every outcome of every rng draw; and every permutation folded through AddCounterHost/AddValueCounterHost/ApplyUnique. unique part: every multiset of <=M sketches of the size family x every permutation x every tree x {Merge,MergeRead} per inner node. unique-adversarial part: for every table size degree of the tier, sketches whose hashes collide in the last slot / slot 0 of the table (wrap-around probing chains of length 1-3, every insertion order), grown across one or two resizes (incl. MergeRead's multi-degree resize) and fed the wrapped values again, every sequence of 2-4 contributions x {Insert, Merge, MergeRead}. Non-trivial = execution in which the host choice consulted the rng at least once (two non-empty operands with different max-count hosts met), resp. a union of at least two non-nil sketches, resp. a sequence in which a value arrives a second time"
+	rep.Rule = "value parts: every multiset of <=N contributions from the alphabet x every distinct permutation x every ordered binary merge tree (MultiValue.Merge: receiver = left subtree) x every outcome of every rng draw; and every permutation folded through AddCounterHost/AddValueCounterHost/ApplyUnique. unique part: every multiset of <=M sketches of the size family x every permutation x every tree x {Merge,MergeRead} per inner node. unique-adversarial part: for every table size degree of the tier, sketches whose hashes collide in the last slot / slot 0 of the table (wrap-around probing chains of length 1-3, every insertion order), grown across one or two resizes (incl. MergeRead's multi-degree resize) and fed the wrapped values again, every sequence of 2-4 contributions x {Insert, Merge, MergeRead}. owned-contributions parts (verif_c04_owned_test.go): the contribution objects of a multiset are built once and every order / grouping is evaluated over these same objects, a contribution only ever being the argument of a merge (receiver = zero accumulator or intermediate result): unique-owned = every multiset of <=M sketches x 2 passes x permutation x tree x {Merge,MergeRead} per node x {in place, fresh accumulator}; value-owned = every multiset of <=3 contributions x every ordered pair of evaluations (permutation x tree with a zero MultiValue per inner node | fold whose first k contributions are merged as objects and the rest applied through Add*/ApplyUnique) x every rng outcome of the first evaluation (thorough tier, 11-element alphabet: of both); every evaluation must give the reference and every contribution must still equal its snapshot. Non-trivial = execution in which the host choice consulted the rng at least once (two non-empty operands with different max-count hosts met), resp. a union of at least two non-nil sketches, resp. a sequence in which a value arrives a second time"
 	rep.Assume("ChUnique.uintHash32 is taken as the definition of the 32-bit hash (the reference counts distinct hashes of the union)")
 	rep.Assume("sums are compared exactly because every number in the exact contributions is dyadic; the contribution with value 0.1 is compared with relative tolerance 1e-9")
 	t0 := time.Now() // wall-clock is logged only, never part of an oracle
@@ -912,6 +912,11 @@ func TestVerifC04(t *testing.T) {
 	t0 = time.Now()
 	c04AdversarialPart(t, rep)
 	t.Logf("C04 adversarial unique part took %.1fs", time.Since(t0).Seconds())
+	t0 = time.Now()
+	c04OwnedUniquePart(t, rep)
+	t.Logf("C04 unique-owned part took %.1fs", time.Since(t0).Seconds())
+	c04OwnedValuePart(t, rep)
+	t.Logf("C04 owned-contributions parts took %.1fs", time.Since(t0).Seconds())
 	if err := rep.Write(); err != nil {
 		t.Fatal(err)
 	}
